@@ -236,7 +236,9 @@ def genexp(eng, node, st, fid):
         try:
             i, cond, vals, extra = _element(eng, [node.elt], gen, s, fid, seq)
         except Unsupported:
-            if seq.known_len is not None and seq.known_len <= 6 and seq.tag == "tuple":
+            # a contract may raise the arity limit for ITS function (`con.genexp_unroll = 8`: the constant tables of
+            # cobra.medium.annotations have up to 8 entries); every other contract keeps the limit 6
+            if seq.known_len is not None and seq.known_len <= getattr(eng.cur_contract, "genexp_unroll", 6) and seq.tag == "tuple":
                 # (f(b) for b in <tuple of fixed arity>), e.g. max(abs(b) for b in r.bounds): a tuple cannot be indexed
                 # symbolically; the elements are evaluated one by one, in order, and handed on as a tuple (the consumers
                 # min / max / sum / tuple() / a for loop read all of them at once anyway)
